@@ -1,0 +1,10 @@
+//go:build verif
+
+package dkv
+
+// VerifQueueLimits reports the limits of the two process-wide background
+// queues: how many flush tasks and how many compaction tasks may be pending
+// before Enqueue blocks the caller.
+func VerifQueueLimits() (flushes int, compactions int) {
+	return flushMemTablesQueue.VerifLimit(), compactionQueue.VerifLimit()
+}
